@@ -29,3 +29,30 @@ Theorem C19_underline_ranges : forall l a b text cols next, list_line l a b = Ok
     /\ cols = map error_column (filter (fun e => match eline e with Some k => k =? n | None => false end) (ls_ind_errors l)).
 Proof. exact underline_ranges_are_the_lines_errors. Qed.
 Print Assumptions C19_underline_ranges.
+
+(* ---- the linker's diagnostic for a branch to a line that is not there (Proofs/LinkErr.v) ---- *)
+From BL Require Import Lang.Ast Proofs.Reloc Proofs.Flow Proofs.Flow2 Proofs.LinkErr.
+
+(* every unresolved reference to a line number yields UNDEFINED LINE with the line that holds the code address and the
+   column range recorded with the reference; the unresolved instruction stays as it was *)
+Theorem C19_undefined_line_reported : forall syms unl acc addr c sym, In (addr, (c, sym)) unl -> zassoc_get sym syms = None -> (0 <= sym)%Z ->
+  In (mkErr E_UndefinedLine (line_number_for syms addr) c) (snd (fold_left (lstep syms) unl acc)).
+Proof. exact undefined_line_reported. Qed.
+Print Assumptions C19_undefined_line_reported.
+
+(* in a compiled program (lines ascending) an address inside the code of line n is attributed to line n *)
+Theorem C19_address_belongs_to_line : forall before n ps after lo addr,
+  ascending (before ++ (n, ps) :: after) lo -> n <= 65529 ->
+  lenN (prog_ops before) <= addr < lenN (prog_ops before) + lenN (line_ops (n, ps)) ->
+  line_number_for (line_syms (before ++ (n, ps) :: after) 0) addr = Some n.
+Proof. exact address_belongs_to_line. Qed.
+Print Assumptions C19_address_belongs_to_line.
+
+(* together, for GOTO and ON..GOTO statements: a target m that is no line of the program is reported as UNDEFINED LINE in
+   the line n the statement stands on, at the column range c the parser recorded for the number *)
+Theorem C19_branch_to_missing_line_is_reported : forall before n pb p pa after lo s k c m,
+  let pls := before ++ (n, pb ++ p :: pa) :: after in
+  ascending pls lo -> n <= 65529 -> fstmt s p -> In (k, (c, Z.of_N m)) (pc_refs p) -> (forall pl, In pl pls -> fst pl <> m) ->
+  In (mkErr E_UndefinedLine (Some n) c) (snd (fold_left (lstep (line_syms pls 0)) (line_refs pls 0) (prog_ops pls, []))).
+Proof. exact branch_to_missing_line_is_reported. Qed.
+Print Assumptions C19_branch_to_missing_line_is_reported.
